@@ -59,6 +59,18 @@ theorem popped_levels (sync : Bool) (n : Nat) (E : Eng) (q : List Ev) :
     (drain sync (n + 1) E q).popped = q ++ (drain sync n (level sync E q).eng (level sync E q).next).popped :=
   ⟨rfl, rfl⟩
 
+/-- the engine's loop as written — a FIFO of `(event, depth)` entries, `pop_front`, entries of depth
+`>= MAX_CHAIN_DEPTH` dropped, outputs pushed to the back with `depth + 1` — computes exactly the level-wise
+`drain` the other theorems speak about (given enough fuel for the `while`: `pops` many pops or more) -/
+theorem queue_loop_is_levelwise (sync : Bool) (E : Eng) (e : Ev) (fuel : Nat) :
+    fifo sync (pops sync maxChainDepth E [e] + fuel) E [(e, 0)] = processOne sync E e := fifo_processOne sync E e fuel
+
+/-- the same for a queue that starts with a whole batch at depth 0 (the pre-repair batch entry points) -/
+theorem queue_loop_is_levelwise_batch (sync : Bool) (E : Eng) (chunk : List Ev) (fuel : Nat) :
+    fifo sync (pops sync maxChainDepth E chunk + fuel) E (tag 0 chunk) = legacyBatchCall sync E chunk := by
+  have := fifo_eq_drain sync maxChainDepth (Nat.le_refl _) E chunk fuel
+  simpa [legacyBatchCall] using this
+
 /-- every external input is taken from the queue -/
 theorem inputs_popped (sync : Bool) (E : Eng) (evs : List Ev) (e : Ev) (h : e ∈ evs) :
     e ∈ (processSeq sync E evs).popped := by
